@@ -117,6 +117,49 @@ def two_phase_calls(body, first, second):
     return True, ""
 
 
+def dir_skips(ctx, R, fn, sites, wr=lambda a: a, also=()):
+    """every test that can skip one of `sites` (statement nodes) inside the innermost loop around it is `neighbour == -1` (or the
+    cell itself), the entry's chemostat flag, or one of the patterns in `also`; conditions that yield no single flow fact
+    (`if(a && b) continue;`) are judged on their atoms"""
+    import re as _re2
+    for lp in [x for x in walk(fn.body) if x.get("kind") in ("ForStmt", "WhileStmt")]:
+        body_ = cxfe.raw_kids(lp)[-1]
+        if not any(any(y is nd for y in walk(body_)) for nd in sites):
+            continue
+        if any(x.get("kind") in ("ForStmt", "WhileStmt") and any(any(y is nd for y in walk(x)) for nd in sites)
+               for x in walk(body_) if x is not body_):
+            continue          # not the innermost loop around the term
+        for iff in [x for x in walk(body_) if x.get("kind") == "IfStmt"]:
+            parts = cxfe.raw_kids(iff)
+            skips = any(y.get("kind") in ("ContinueStmt", "BreakStmt", "ReturnStmt") for y in walk(parts[1])) or \
+                any(any(y is nd for y in walk(iff)) for nd in sites)
+            if not skips:
+                continue
+            ats = [wr(a) for a, pol in cxa.cfacts(parts[0], True) + cxa.cfacts(parts[0], False) if isinstance(a, str)]
+            txt = wr(cxa.canon(parts[0]))
+            okc = bool(ats) and all(_re2.match(r"^mesh_neighbors\[[^\]]*\] == (-1|[a-z])$", a) or a.startswith("mesh_chstt[") or
+                                    any(_re2.match(p_, a) for p_ in also) for a in ats)
+            okc = okc or bool(_re2.match(r"^!?\(?mesh_neighbors\[[^\]]*\] (==|!=) -1\)?$", txt))
+            ctx.check(okc, R, iff, fn.qual, "test inside the direction loop: %s" % text(parts[0])[:60],
+                      "`neighbour != -1` (or the cell itself)", "the exchange with a neighbour is skipped under `%s`: a face "
+                      "between two cells is left out (two cells of a periodic axis of length 2 share two faces; the neighbour "
+                      "table alone says which cells exchange)" % text(parts[0])[:70])
+
+
+def nbr_locals(fn):
+    """writes `int j = mesh_neighbors[..]` out in a fact text"""
+    import re as _re2
+    inits = {}
+    for v_ in walk(fn.body):
+        if v_.get("kind") == "VarDecl" and kids(v_) and "int" in v_.get("type", {}).get("qualType", ""):
+            try:
+                inits[str(uname(v_))] = cxa.canon(kids(v_)[-1])
+            except Exception:
+                pass
+    return lambda a: _re2.sub(r"[A-Za-z_][A-Za-z_0-9']*", lambda m_: inits.get(m_.group(0), m_.group(0))
+                              if m_.group(0) in inits and inits[m_.group(0)].startswith("mesh_neighbors[") else m_.group(0), a)
+
+
 def rule_phase(ctx, tu, eff, R="C01.PHASE"):
     for cn in ("Euler3D", "EulerGraph"):
         c = tu.classes[cn]
@@ -174,6 +217,39 @@ def rule_phase(ctx, tu, eff, R="C01.PHASE"):
                       "unconditional inside the cell / reaction loops", "the reaction rates of a cell are skipped under `%s`: "
                       "reactions whose rate does not vanish there (zero-order reactions in an empty cell) are left out of the "
                       "derivative" % (extra[0] if extra else "?"))
+        # every face contributes: the diffusion term of (cell, species) is subtracted for every direction that has a neighbour.
+        # The only conditions it may stand under are the loop bounds, this entry's chemostat flag and `neighbour != -1`; a test
+        # that compares the neighbour with the cell or with another direction's neighbour drops one of the two faces a pair of
+        # cells shares on a periodic axis of two cells
+        at2 = []
+
+        def on_diff(node, facts, at2=at2):
+            for s_ in cxa.stores_of_node(node):
+                if s_.op == "-=" and s_.base and s_.base[1].startswith("mesh_dxdt"):
+                    at2.append((node, set(facts)))
+        cxa.canon_facts(comp.body, on_atom=on_diff)
+        import re as _re2
+        inits = {}
+        for v_ in walk(comp.body):
+            if v_.get("kind") == "VarDecl" and kids(v_) and "int" in v_.get("type", {}).get("qualType", ""):
+                try:
+                    inits[str(uname(v_))] = cxa.canon(kids(v_)[-1])
+                except Exception:
+                    pass
+        wr = lambda a: _re2.sub(r"[A-Za-z_][A-Za-z_0-9']*", lambda m_: inits.get(m_.group(0), m_.group(0))
+                                if m_.group(0) in inits and inits[m_.group(0)].startswith("mesh_neighbors[") else m_.group(0), a)
+        for node_, fs in at2:
+            fs = {(wr(a) if isinstance(a, str) else a, pol) for a, pol in fs}      # `int j = mesh_neighbors[..]` written out
+            extra = sorted(str(a) for a, pol in fs if isinstance(a, str) and
+                           not _re2.match(r"^(0 <= )?[A-Za-z_']+\d* (<|<=) (n_\w+|\d+|mesh_neighbor_n\[\w+\]|[A-Za-z_']+)$", a) and
+                           not _re2.match(r"^0 <= \w+", a) and not a.startswith("mesh_chstt[") and
+                           not (_re2.match(r"^mesh_neighbors\[[^\]]*\] == (-1|[a-z])$", a) and pol is False))
+            ctx.check(not extra, R, node_, comp.qual, "diffusion term applied for every direction with a neighbour",
+                      "under the loop bounds, the chemostat flag and `neighbour != -1` only", "the exchange with a neighbour is "
+                      "skipped under `%s`: a face between two cells is left out of the derivative (two cells of a periodic axis "
+                      "of length 2 share two faces)" % (extra[0] if extra else "?"))
+        ctx.need(at2, R, "%s: the diffusion term of the derivative not found" % comp.qual)
+        dir_skips(ctx, R, comp, [nd for nd, _ in at2], wr)
     for b in ("SimulationAlgorithm3DBase", "SimulationAlgorithmGraphBase"):
         f = tu.fn(b + "::ReactionRate")
         ps = f.param_names()
